@@ -397,12 +397,14 @@ def collapse_one(
             if out.target.casefold() != folded_inst_name or out.inst_in is None:
                 continue
             try:
-                proxy_out = file.proxy_inputs[out.inst_in, out.input]
+                # The table is keyed by case-folded names.
+                proxy_out = file.proxy_inputs[out.inst_in.casefold(), out.input.casefold()]
             except KeyError:
                 # Not an error, could be another instance with our name.
                 continue
             # Output.combine(), but in-place.
-            out.target = proxy_out.target
+            # The entity inside the instance is renamed like everything else.
+            out.target = inst.fixup_name(proxy_out.target)
             out.input = proxy_out.input
             out.inst_in = None
             if proxy_out.params:
